@@ -21,6 +21,7 @@ import (
 
 	gerr "github.com/fatedier/golib/errors"
 
+	"github.com/fatedier/frp/pkg/util/verifhook"
 	"github.com/fatedier/frp/server/ports"
 )
 
@@ -54,6 +55,7 @@ func (tgc *TCPGroupCtl) Listen(proxyName string, group string, groupKey string,
 	}
 	tgc.mu.Unlock()
 
+	verifhook.At("server.group.tcp.afterLookup", group, proxyName)
 	return tcpGroup.Listen(proxyName, group, groupKey, addr, port)
 }
 
@@ -100,6 +102,7 @@ func (tg *TCPGroup) Listen(proxyName string, group string, groupKey string, addr
 		if err != nil {
 			return
 		}
+		verifhook.At("server.group.tcp.afterAcquire", group, proxyName, realPort)
 		tcpLn, errRet := net.Listen("tcp", net.JoinHostPort(addr, strconv.Itoa(port)))
 		if errRet != nil {
 			err = errRet
@@ -146,6 +149,7 @@ func (tg *TCPGroup) worker() {
 		if err != nil {
 			return
 		}
+		verifhook.At("server.group.tcp.worker.beforeHandoff", tg.group)
 		err = gerr.PanicToError(func() {
 			tg.acceptCh <- c
 		})
@@ -161,6 +165,7 @@ func (tg *TCPGroup) Accept() <-chan net.Conn {
 
 // CloseListener remove the TCPGroupListener from the TCPGroup
 func (tg *TCPGroup) CloseListener(ln *TCPGroupListener) {
+	verifhook.At("server.group.tcp.closeListener.enter", ln.groupName)
 	tg.mu.Lock()
 	defer tg.mu.Unlock()
 	for i, tmpLn := range tg.lns {
